@@ -58,7 +58,7 @@ def elaborate(tree):
     import pyrtl
     pyrtl.reset_working_block()
     P = {n: pyrtl.Input(1, n) for n in ALL_PREDS}
-    used = sorted(set(tg.rstrip('!') for _, tg in assignments(tree)))
+    used = sorted(set({'regh': 'regd'}.get(tg.rstrip('!'), tg.rstrip('!')) for _, tg in assignments(tree)))
     w = pyrtl.WireVector(W, 'w')
     wd = pyrtl.WireVector(W, 'wd')
     reg = pyrtl.Register(W, 'reg')
@@ -92,6 +92,8 @@ def elaborate(tree):
                         reg.next |= v
                     elif tg == 'regd':
                         regd.next |= v
+                    elif tg == 'regh':
+                        regd.next |= regd          # explicit hold of a register that has a default
                     elif tg == 'mem':
                         nm_ = tags[(path + (i,), tg_)]
                         if nm_ in ens:
@@ -145,6 +147,9 @@ def interp(o, tree, val, tags):
             for tg_ in asg:
                 nm_ = tags[(path + (i,), tg_)]
                 tg = tg_.rstrip('!')
+                if tg == 'regh':
+                    acts.setdefault('regd', []).append((active, val['__regd']))
+                    continue
                 acts.setdefault(tg, []).append((active, val[nm_]))
                 if tg == 'mem':
                     en_name = 'e' + nm_[1:]
@@ -190,7 +195,7 @@ def replay(tree, inputs, reg0=0, regd0=0, mem0=None):
     names = [w.name for w in block.wirevector_subset(pyrtl.Input)]
     step = {n: inputs.get(n, 0) for n in names}
     sim.step(step)
-    acts = interp(IntOps, tree, step, tags)
+    acts = interp(IntOps, tree, dict(step, __regd=regd0), tags)
     exp = dict(ow=expected(IntOps, acts, 'w', 0), owd=expected(IntOps, acts, 'wd', step['dflt_w']))
     obs = dict(ow=sim.inspect('ow'), owd=sim.inspect('owd'))
     mem_before = {int(k): v for k, v in (mem0 or {}).items()}
@@ -223,6 +228,7 @@ def nonexclusive_accepted(tree):
     for bits in itertools.product([0, 1], repeat=len(ALL_PREDS)):
         val = dict(zip(ALL_PREDS, bits))
         val.update({v: 0 for v in tags.values()})
+        val['__regd'] = 0
         acts = interp(IntOps, tree, val, tags)
         for tg, lst in acts.items():
             if sum(1 for c, _ in lst if c) > 1:
@@ -260,6 +266,9 @@ def handmade_trees():
         out.append([['p', [t2 + '!'], [leaf('q', t1)]], ['r', [t1], []]])
         out.append([['p', [t2 + '!'], [leaf('q', t1), leaf('O', t1)]], ['O', [t2 + '!'], [leaf('s', t1)]]])
         out.append([['p', [], [['q', [t2 + '!'], [leaf('r', t1)]], leaf('s', t1)]]])
+        # explicit holds of a register that has a `defaults` entry
+        out.append([['p', ['regh'], []], ['q', ['regd'], []]])
+        out.append([['p', [t1], [leaf('q', 'regh'), leaf('O', 'regd')]], ['O', ['regh'], []]])
         # an otherwise inside the first member, then later top-level members
         out.append([['p', [t1], [leaf('q', t2), leaf('O', t2)]], ['r', [t1], []],
                     ['O', [], [leaf('s', t1), leaf('t', t2)]]])
